@@ -840,6 +840,9 @@ func runC17(c *Ctx) {
 		}
 		for _, l := range fam {
 			for k, id := range l.ids {
+				if k >= len(l.ev) {
+					break // ids replaced after a C17/ids-changed report: no signing event to attribute them to
+				}
 				key := hx(id)
 				if e, ok := idEvent[key]; ok && e != l.ev[k] {
 					c.Violate("C17/duplicate-id", "two different signing events produced the same revocation identifier", map[string]interface{}{"id": key, "event_a": e, "event_b": l.ev[k]})
